@@ -1489,4 +1489,320 @@ theorem typeDecl_interface_print (fuel : Nat) (c : List String) (ts0 : List Toke
     rw [methods_split _ (fun _ => rfl) (fun _ => rfl) ms _ hms, props_split _ (fun _ => rfl) (fun _ => rfl) ms _ hms]
     simp [sortMembers]
 
+theorem typeDecl_function_print (fuel : Nat) (c : List String) (ts0 : List Token) (n : String)
+    (fl : Option (List String)) (sig : SigShape) (body rest : List Token)
+    (hb : body.map (·.tk) = Tk.id n :: Tk.kw "=" :: (printFnKw fl ++ (printSig sig ++ [Tk.kw ";"])))
+    (hfuel : body.length ≤ fuel + 1) :
+    ∃ d, typeDecl fuel c ts0 (body ++ rest) = some (d, rest) ∧ d.shape? = some (.function n c fl sig.erase) := by
+  obtain ⟨nt, b1, rfl, hn, hb⟩ := List.map_eq_cons_iff.mp hb
+  obtain ⟨eq, b2, rfl, heq, hb⟩ := List.map_eq_cons_iff.mp hb
+  obtain ⟨fk, b3, rfl, hfk, hb⟩ := List.map_eq_append_iff.mp hb
+  obtain ⟨pre, b4, rfl, hpre, hb⟩ := List.map_eq_append_iff.mp hb
+  obtain ⟨semi, b5, rfl, hsemi, hb⟩ := List.map_eq_cons_iff.mp hb
+  rw [List.map_eq_nil_iff] at hb; subst hb
+  simp only [List.length_cons, List.length_append] at hfuel
+  obtain ⟨fp, ps, thr, ret, hfn, hsig⟩ := functionL_print fl sig fk pre semi rest fuel hfk hpre hsemi (by omega)
+  have hhead : ∃ x xs, fk ++ (pre ++ semi :: rest) = x :: xs ∧ (x.tk = .kw "function" ∨ x.tk = .kw "(") := by
+    cases fl with
+    | none =>
+      simp [printFnKw] at hfk; subst hfk
+      simp only [printSig] at hpre
+      obtain ⟨lp, b1, rfl, hlp, _⟩ := List.map_eq_cons_iff.mp hpre
+      exact ⟨lp, _, rfl, Or.inr hlp⟩
+    | some l =>
+      simp only [printFnKw] at hfk
+      obtain ⟨x, b1, rfl, hx, _⟩ := List.map_eq_cons_iff.mp hfk
+      exact ⟨x, _, rfl, Or.inl hx⟩
+  have hpk : ∀ s : String, s ≠ "function" → s ≠ "(" → peekKw s (fk ++ (pre ++ semi :: rest)) = false := by
+    intro s h1 h2
+    obtain ⟨x, xs, e, hx | hx⟩ := hhead
+    · rw [e]; exact peekKw_ne hx (Ne.symm h1)
+    · rw [e]; exact peekKw_ne hx (Ne.symm h2)
+  have e : nt :: eq :: (fk ++ (pre ++ [semi])) ++ rest = nt :: eq :: (fk ++ (pre ++ semi :: rest)) := by simp
+  rw [e]
+  unfold typeDecl
+  simp only [ident, hn, Option.bind_eq_bind, Option.bind_some, kw?_cons _ _ _ heq,
+    hpk "enum" (by decide) (by decide), hpk "flags" (by decide) (by decide), hpk "record" (by decide) (by decide),
+    hpk "main" (by decide) (by decide), hpk "interface" (by decide) (by decide), hpk "error" (by decide) (by decide),
+    Bool.false_eq_true, if_false, Bool.or_false]
+  rw [firstThat_head' hfn (by simp [kw?_cons _ _ _ hsemi])]
+  simp only [kw?_cons _ _ _ hsemi, Option.bind_some, Option.pure_def]
+  exact ⟨_, rfl, by simp [Decl.shape?, hsig]⟩
+
+theorem typeDecl_error_print (fuel : Nat) (c : List String) (ts0 : List Token) (n : String) (codes : List ErrCodeShape)
+    (body rest : List Token)
+    (hb : body.map (·.tk) = Tk.id n :: Tk.kw "=" :: Tk.kw "error" :: Tk.kw "{" :: (codes.flatMap printErrCode ++ [Tk.kw "}"]))
+    (hfuel : body.length ≤ fuel + 1) :
+    ∃ d, typeDecl fuel c ts0 (body ++ rest) = some (d, rest) ∧
+      d.shape? = some (.error n c (codes.map ErrCodeShape.erase)) := by
+  obtain ⟨nt, b1, rfl, hn, hb⟩ := List.map_eq_cons_iff.mp hb
+  obtain ⟨eq, b2, rfl, heq, hb⟩ := List.map_eq_cons_iff.mp hb
+  obtain ⟨k, b3, rfl, hk, hb⟩ := List.map_eq_cons_iff.mp hb
+  obtain ⟨lb, b4, rfl, hlb, hb⟩ := List.map_eq_cons_iff.mp hb
+  obtain ⟨pre, b5, rfl, hpre, hb⟩ := List.map_eq_append_iff.mp hb
+  obtain ⟨rb, b6, rfl, hrb, hb⟩ := List.map_eq_cons_iff.mp hb
+  rw [List.map_eq_nil_iff] at hb; subst hb
+  simp only [List.length_cons, List.length_append] at hfuel
+  obtain ⟨cs, hmany, hcs⟩ := many_block fuel (errCode fuel) printErrCode ErrCode.shape? ErrCodeShape.erase codes fuel
+    (fun s => by simp [printErrCode]; omega)
+    (fun s _ q r hq => startsCI_peekKw (startsCI_of s.comment s.name _ q r hq) _)
+    (fun s _ q r hq hl => errCode_print s q r fuel hq hl)
+    pre rb rest fuel hpre hrb (by omega) (by omega)
+  have e : nt :: eq :: k :: lb :: (pre ++ [rb]) ++ rest = nt :: eq :: k :: lb :: (pre ++ rb :: rest) := by simp
+  rw [e]
+  unfold typeDecl
+  simp only [ident, hn, Option.bind_eq_bind, Option.bind_some, kw?_cons _ _ _ heq,
+    peekKw_ne hk (by decide : "error" ≠ "enum"), peekKw_ne hk (by decide : "error" ≠ "flags"),
+    peekKw_ne hk (by decide : "error" ≠ "record"), peekKw_ne hk (by decide : "error" ≠ "main"),
+    peekKw_ne hk (by decide : "error" ≠ "interface"), peekKw_eq hk,
+    Bool.false_eq_true, if_false, Bool.or_false, if_true, List.tail_cons, kw?_cons _ _ _ hlb, hmany,
+    kw?_cons _ _ _ hrb, Option.pure_def]
+  exact ⟨_, rfl, by simp [Decl.shape?, hcs]⟩
+
+/-! ## all declarations at once -/
+
+def DeclShape.comment : DeclShape → List String
+  | .enum _ c _ | .flags _ c _ | .record _ c _ _ _ | .interface _ c _ _ _ | .function _ c _ _ | .error _ c _ => c
+
+/-- the tokens of a declaration after its comment lines -/
+def printDeclBody : DeclShape → List Tk
+  | .enum n _ is => Tk.id n :: Tk.kw "=" :: Tk.kw "enum" :: Tk.kw "{" :: (is.flatMap printItem ++ [Tk.kw "}"])
+  | .flags n _ is => Tk.id n :: Tk.kw "=" :: Tk.kw "flags" :: Tk.kw "{" :: (is.flatMap printFlagItem ++ [Tk.kw "}"])
+  | .record n _ t fs d => Tk.id n :: Tk.kw "=" :: Tk.kw "record" :: (printTargets t ++ Tk.kw "{" ::
+      (fs.flatMap printField ++ Tk.kw "}" :: printDeriving d))
+  | .interface n _ mn t ms => Tk.id n :: Tk.kw "=" :: (printMod mn "main" ++ Tk.kw "interface" ::
+      (printTargets t ++ Tk.kw "{" :: (ms.flatMap printMember ++ [Tk.kw "}"])))
+  | .function n _ fl s => Tk.id n :: Tk.kw "=" :: (printFnKw fl ++ (printSig s ++ [Tk.kw ";"]))
+  | .error n _ cs => Tk.id n :: Tk.kw "=" :: Tk.kw "error" :: Tk.kw "{" :: (cs.flatMap printErrCode ++ [Tk.kw "}"])
+
+theorem printDecl_eq (d : DeclShape) : printDecl d = printComments d.comment ++ printDeclBody d := by
+  cases d <;> rfl
+
+/-- the exact follow-set condition of a printed declaration: only a record without `deriving`
+    looks at the next token (which must not be `deriving`) -/
+def DeclFollowOK : DeclShape → List Token → Prop
+  | .record _ _ _ _ none, rest => peekKw "deriving" rest = false
+  | _, _ => True
+
+theorem printDeclBody_head (d : DeclShape) : ∃ n tl, printDeclBody d = Tk.id n :: tl := by
+  cases d <;> exact ⟨_, _, rfl⟩
+
+theorem typeDecl_print (d : DeclShape) (fuel : Nat) (ts0 body rest : List Token)
+    (hb : body.map (·.tk) = printDeclBody d) (hfollow : DeclFollowOK d rest) (hfuel : body.length ≤ fuel + 1) :
+    ∃ x, typeDecl fuel d.comment ts0 (body ++ rest) = some (x, rest) ∧ x.shape? = some d.erase := by
+  cases d with
+  | enum n c is => exact typeDecl_enum_print fuel c ts0 n is body rest hb hfuel
+  | flags n c is => exact typeDecl_flags_print fuel c ts0 n is body rest hb hfuel
+  | record n c t fs dv =>
+    refine typeDecl_record_print fuel c ts0 n t fs dv body rest hb ?_ hfuel
+    rintro rfl; exact hfollow
+  | interface n c mn t ms => exact typeDecl_interface_print fuel c ts0 n mn t ms body rest hb hfuel
+  | function n c fl s => exact typeDecl_function_print fuel c ts0 n fl s body rest hb hfuel
+  | error n c cs => exact typeDecl_error_print fuel c ts0 n cs body rest hb hfuel
+
+/-! ## namespaces and files -/
+
+/-- first token of a printed namespace content: a comment, an identifier or `namespace` -/
+def StartsContent (ts : List Token) : Prop :=
+  ∃ x xs, ts = x :: xs ∧ ((∃ c, x.tk = .comment c) ∨ (∃ n, x.tk = .id n) ∨ x.tk = .kw "namespace")
+
+theorem StartsContent.peekKw_false {ts : List Token} (h : StartsContent ts) (s : String) (hs : s ≠ "namespace") :
+    peekKw s ts = false := by
+  obtain ⟨x, xs, rfl, h | h | h⟩ := h
+  · obtain ⟨c, hc⟩ := h; simp [peekKw, hc]
+  · obtain ⟨c, hc⟩ := h; exact peekKw_id hc
+  · exact peekKw_ne h (Ne.symm hs)
+
+theorem startsContent_of_comments (c : List String) (cs nx : List Token) (hcs : cs.map (·.tk) = printComments c)
+    (hnx : StartsContent nx) : StartsContent (cs ++ nx) := by
+  cases cs with
+  | nil => exact hnx
+  | cons y ys =>
+    cases c with
+    | nil => simp [printComments] at hcs
+    | cons c' _ => simp [printComments] at hcs; exact ⟨y, _, rfl, Or.inl ⟨_, hcs.1⟩⟩
+
+theorem printContent_head (s : ContentShape) (q r : List Token) (hq : q.map (·.tk) = printContent s) :
+    StartsContent (q ++ r) := by
+  cases s with
+  | decl d =>
+    simp only [printContent, printDecl_eq] at hq
+    obtain ⟨cs, body, rfl, hcs, hb⟩ := List.map_eq_append_iff.mp hq
+    obtain ⟨n, tl, hd⟩ := printDeclBody_head d
+    rw [hd] at hb
+    obtain ⟨nt, b, rfl, hn, _⟩ := List.map_eq_cons_iff.mp hb
+    rw [List.append_assoc]
+    exact startsContent_of_comments _ cs _ hcs ⟨nt, _, rfl, Or.inr (Or.inl ⟨_, hn⟩)⟩
+  | ns n d c cs' =>
+    simp only [printContent] at hq
+    obtain ⟨cs, body, rfl, hcs, hb⟩ := List.map_eq_append_iff.mp hq
+    obtain ⟨nk, b, rfl, hnk, _⟩ := List.map_eq_cons_iff.mp hb
+    rw [List.append_assoc]
+    exact startsContent_of_comments _ cs _ hcs ⟨nk, _, rfl, Or.inr (Or.inr hnk)⟩
+
+theorem printContent_length_pos (s : ContentShape) : 1 ≤ (printContent s).length := by
+  cases s with
+  | decl d =>
+    obtain ⟨n, tl, hd⟩ := printDeclBody_head d
+    simp [printContent, printDecl_eq, hd]; omega
+  | ns n d c cs' => simp [printContent]; omega
+
+theorem content_succ (fuel : Nat) (ts0 : List Token) : content (fuel+1) ts0 =
+    if peekKw "namespace" (comments ts0).2 then
+      match nsIdent (comments ts0).2.tail with
+      | none => none
+      | some (n, ts) =>
+        match kw? "{" ts with
+        | none => none
+        | some ts =>
+          match many fuel (peekKw "}") (content fuel) fuel ts with
+          | none => none
+          | some (cs, ts) =>
+            match kw? "}" ts with
+            | none => none
+            | some ts => some (.ns n (comments ts0).1 cs (spanPos ts0 ts), ts)
+    else
+      match typeDecl fuel (comments ts0).1 ts0 (comments ts0).2 with
+      | none => none
+      | some (d, ts) => some (.decl d, ts) := by
+  rw [content.eq_2]
+  generalize comments ts0 = x
+  obtain ⟨c, ts⟩ := x
+  simp only
+  split
+  · cases nsIdent ts.tail with
+    | none => rfl
+    | some y =>
+      obtain ⟨n, ts1⟩ := y
+      simp only [Option.bind_eq_bind, Option.bind_some]
+      cases kw? "{" ts1 with
+      | none => rfl
+      | some ts2 =>
+        simp only [Option.bind_some]
+        cases many fuel (peekKw "}") (content fuel) fuel ts2 with
+        | none => rfl
+        | some z =>
+          obtain ⟨cs, ts3⟩ := z
+          simp only [Option.bind_some]
+          cases kw? "}" ts3 with
+          | none => rfl
+          | some ts4 => rfl
+  · cases typeDecl fuel c ts0 ts with
+    | none => rfl
+    | some y => rfl
+
+/-- exact follow-set condition of a printed namespace content -/
+def ContentFollowOK : ContentShape → List Token → Prop
+  | .decl d, rest => DeclFollowOK d rest
+  | .ns _ _ _ _, _ => True
+
+theorem ContentFollowOK_of_simple (s : ContentShape) (rest : List Token) (h : peekKw "deriving" rest = false) :
+    ContentFollowOK s rest := by
+  cases s with
+  | decl d => cases d <;> first | trivial | (rename_i dv; cases dv <;> first | exact h | trivial)
+  | ns _ _ _ _ => trivial
+
+theorem printContents_follow (l : List ContentShape) (pre rest : List Token) (hp : pre.map (·.tk) = printContents l)
+    (h : peekKw "deriving" rest = false) : peekKw "deriving" (pre ++ rest) = false := by
+  cases l with
+  | nil => simp [printContents] at hp; subst hp; exact h
+  | cons a as =>
+    simp only [printContents] at hp
+    obtain ⟨q, pre', rfl, hq, _⟩ := List.map_eq_append_iff.mp hp
+    rw [List.append_assoc]
+    exact (printContent_head a q (pre' ++ rest) hq).peekKw_false _ (by decide)
+
+mutual
+theorem content_print (s : ContentShape) (pre rest : List Token) (fuel : Nat)
+    (hp : pre.map (·.tk) = printContent s) (hfollow : ContentFollowOK s rest) (hfuel : pre.length ≤ fuel) :
+    ∃ a, content fuel (pre ++ rest) = some (a, rest) ∧ a.shape? = some s.erase := by
+  match s with
+  | .decl d =>
+    simp only [printContent, printDecl_eq] at hp
+    obtain ⟨cs, body, rfl, hcs, hb⟩ := List.map_eq_append_iff.mp hp
+    obtain ⟨n, tl, hd⟩ := printDeclBody_head d
+    have hb' := hb
+    rw [hd] at hb'
+    obtain ⟨nt, b, rfl, hn, _⟩ := List.map_eq_cons_iff.mp hb'
+    simp only [List.length_append] at hfuel
+    cases fuel with
+    | zero => simp at hfuel
+    | succ g =>
+      have hcm := comments_print' cs d.comment nt (b ++ rest) hcs (by simp [hn])
+      obtain ⟨x, hx, hxs⟩ := typeDecl_print d g (cs ++ nt :: (b ++ rest)) (nt :: b) rest hb hfollow (by omega)
+      have e : cs ++ nt :: b ++ rest = cs ++ nt :: (b ++ rest) := by simp
+      rw [e, content_succ, hcm]
+      simp only [peekKw_id hn, Bool.false_eq_true, if_false]
+      rw [List.cons_append] at hx
+      rw [hx]
+      exact ⟨_, rfl, by simp [Content.shape?, hxs, ContentShape.erase]⟩
+  | .ns n d c l =>
+    simp only [printContent] at hp
+    obtain ⟨cs, b1, rfl, hcs, hb⟩ := List.map_eq_append_iff.mp hp
+    obtain ⟨nk, b2, rfl, hnk, hb⟩ := List.map_eq_cons_iff.mp hb
+    obtain ⟨nm, b3, rfl, hnm, hb⟩ := List.map_eq_cons_iff.mp hb
+    obtain ⟨lb, b4, rfl, hlb, hb⟩ := List.map_eq_cons_iff.mp hb
+    obtain ⟨cpre, b5, rfl, hcpre, hb⟩ := List.map_eq_append_iff.mp hb
+    obtain ⟨rb, b6, rfl, hrb, hb⟩ := List.map_eq_cons_iff.mp hb
+    rw [List.map_eq_nil_iff] at hb; subst hb
+    simp only [List.length_append, List.length_cons] at hfuel
+    cases fuel with
+    | zero => omega
+    | succ g =>
+      have hcm := comments_print' cs c nk (nm :: lb :: (cpre ++ rb :: rest)) hcs (by simp [hnk])
+      obtain ⟨as, has, hss⟩ := contents_print l cpre (rb :: rest) (peekKw "}") g g g hcpre (peekKw_eq hrb)
+        (fun ts h => h.peekKw_false _ (by decide)) (peekKw_ne hrb (by decide)) (by omega) (by omega)
+      have e : cs ++ nk :: nm :: lb :: (cpre ++ [rb]) ++ rest = cs ++ nk :: nm :: lb :: (cpre ++ rb :: rest) := by simp
+      rw [e, content_succ, hcm]
+      simp only [peekKw_eq hnk, if_true, List.tail_cons, nsIdent_name nm _ n d hnm, kw?_cons _ _ _ hlb, has,
+        kw?_cons _ _ _ hrb]
+      exact ⟨_, rfl, by simp [Content.shape?, hss, ContentShape.erase]⟩
+theorem contents_print (l : List ContentShape) (pre rest : List Token) (stop : List Token → Bool) (fuel' fuel n : Nat)
+    (hp : pre.map (·.tk) = printContents l) (hstop : stop rest = true)
+    (hstart : ∀ ts, StartsContent ts → stop ts = false) (hfollow : peekKw "deriving" rest = false)
+    (hfuel : pre.length ≤ fuel) (hn : pre.length < n) :
+    ∃ as, many fuel' stop (content fuel) n (pre ++ rest) = some (as, rest) ∧
+      contentsShape? as = some (eraseContents l) := by
+  match l with
+  | [] =>
+    simp [printContents] at hp; subst hp
+    cases n with
+    | zero => simp at hn
+    | succ k => exact ⟨[], by simp [many, hstop], rfl⟩
+  | a :: as =>
+    simp only [printContents] at hp
+    obtain ⟨q, pre', rfl, hq, hpre'⟩ := List.map_eq_append_iff.mp hp
+    have hpos := printContent_length_pos a
+    rw [← hq, List.length_map] at hpos
+    simp only [List.length_append] at hfuel hn
+    cases n with
+    | zero => omega
+    | succ k =>
+      have hfo := printContents_follow as pre' rest hpre' hfollow
+      obtain ⟨x, hx, hxs⟩ := content_print a q (pre' ++ rest) fuel hq (ContentFollowOK_of_simple _ _ hfo) (by omega)
+      obtain ⟨xs, hxs', hxss⟩ := contents_print as pre' rest stop fuel' fuel k hpre' hstop hstart hfollow
+        (by omega) (by omega)
+      have hst := hstart _ (printContent_head a q (pre' ++ rest) hq)
+      rw [List.append_assoc]
+      refine ⟨x :: xs, ?_, by simp [contentsShape?, hxs, hxss, eraseContents]⟩
+      simp [many, hst, hx, hxs']
+end
+
+theorem load_print (s : LoadShape) (q r : List Token) (hq : q.map (·.tk) = printLoad s) :
+    ∃ a, load (q ++ r) = some (a, r) ∧ a.shape = s := by
+  obtain ⟨imp, lit⟩ := s
+  simp only [printLoad] at hq
+  obtain ⟨a, b1, rfl, ha, hb⟩ := List.map_eq_cons_iff.mp hq
+  obtain ⟨b, b2, rfl, hbt, hb⟩ := List.map_eq_cons_iff.mp hb
+  rw [List.map_eq_nil_iff] at hb; subst hb
+  cases imp with
+  | true =>
+    simp only [if_true] at ha
+    simp only [load, List.cons_append, List.nil_append, hbt, ha, beq_self_eq_true, if_true]
+    exact ⟨_, rfl, rfl⟩
+  | false =>
+    simp only [Bool.false_eq_true, if_false] at ha
+    simp only [load, List.cons_append, List.nil_append, hbt, ha]
+    exact ⟨_, rfl, rfl⟩
+
 end Pydjinni.Front
